@@ -350,7 +350,7 @@ def body(ctx, case):
 
 
 SUBS = [
-    Sub(name="complex_vs_real", body=body, strategy=lambda ctx: case_strategy(ctx), quick=16, thorough=640,
+    Sub(name="complex_vs_real", body=body, strategy=lambda ctx: case_strategy(ctx), quick=12, thorough=640,
         lanes=("f64", "f32"), f32_fraction=0.25, quick_shards=2, max_seconds_quick=420.0,
         rule="same spec placed twice (use_complex_fields None / True); fields and detector records compared"),
 ]
